@@ -34,12 +34,14 @@ def shapes(tier):
         out.append(["L", "Q." + q])
         out.append(["L", "Q." + q + "@cw"])
     out += [["CQ", "ringc"], ["CQ", "twoc"], ["CQ", "xringc"], ["E"], ["W"]]
+    # boundaries with redundant vertices (as the operators leave them on their operands)
+    out += [["SP", ["L", "P.sqA#int"]], ["SP", ["L", "P.L#float@cw"]], ["SP", ["PC", "hollow", "int"]], ["SP", ["PC", "two", "frac"]], ["SP", ["L", "Q.c8"]], ["SP", ["L", "Q.blob"]], ["SP", ["L", "Q.mixg"]], ["V", [[0, 0], [1, 0], [3, 0], [3, 2], [0, 2]]], ["G", "Q.rsq"]]
     out += [["-", ["L", "P.sqA#int"], ["L", "P.triA#int"]], ["^", ["L", "P.sqA#int"], ["L", "P.sqB#int"]], ["|", ["L", "Q.c8"], ["L", "Q.fsq"]], ["-", ["L", "Q.c16"], ["L", "Q.c8s"]]]
     return out
 
 
 def name(e):
-    return "CQ." + e[1] if e[0] == "CQ" else al.expr_id(e)
+    return al.expr_id(e)
 
 
 def cases(tier, seed):
